@@ -5,3 +5,15 @@ for p in sys.argv[1:] or glob.glob('/verif/evidence/*.json'):
     jsonschema.validate(json.load(open(p)), s); print('evidence valid:', p)
 m = json.load(open('/root/.vp/MANIFEST.schema.json'))
 jsonschema.validate(json.load(open('/verif/MANIFEST.json')), m); print('manifest valid')
+# consistency: every harness listed in contracts/kani/table.py exists in its module, every unit exists
+import importlib.util, re, os
+s = importlib.util.spec_from_file_location('t', '/verif/contracts/kani/table.py'); m = importlib.util.module_from_spec(s); s.loader.exec_module(m)
+for pid, hs in m.HARNESSES.items():
+    for h in hs:
+        src = open('/verif/contracts/kani/' + m.MODULES[h['module']]['file']).read()
+        assert re.search(r'\b%s\b' % re.escape(h['name']), src), "harness %s missing" % h['name']
+s = importlib.util.spec_from_file_location('p', '/verif/contracts/properties.py'); pm = importlib.util.module_from_spec(s); s.loader.exec_module(pm)
+for pid, P in pm.PROPS.items():
+    for u in P.get('verus', []):
+        assert os.path.exists('/verif/contracts/verus/units/%s.py' % u['unit']), "unit %s missing" % u['unit']
+print('tables consistent')
